@@ -1,12 +1,14 @@
-SPECIFICATION Spec
+SPECIFICATION SpecC
 CONSTANTS
-  NT = 3
-  MaxSteps = 40
+  MaxT = 8
+  NT = 8
+  MaxSteps = 100000
   Modes = {"fire", "call"}
-  Outcomes = {1, 3, 4}
+  Outcomes = {1, 2, 3, 4}
   Variants = {"intended", "pinned"}
   WithStop = TRUE
   WithUnreg = TRUE
   WithOther = TRUE
-  SettleCap = 40
+  KeepOut = TRUE
+INVARIANT Report
 CHECK_DEADLOCK FALSE
